@@ -732,6 +732,9 @@ def delete_raggedarray(ra):
     if not ra.accessmode == 'r+':
         raise OSError('Darr ragged array is read-only; set accessmode to '
                       '"r+" to change')
+    # nothing is removed unless the sub-arrays are (still) there and writable
+    ra._values.check_arraywriteable()
+    ra._indices.check_arraywriteable()
     for fn in ra._protectedfiles:
         path = ra.path.joinpath(fn)
         if path.exists() and not path.is_dir():
